@@ -4,7 +4,7 @@
 
     duckscript_sdk/src/types/command.rs   `AliasCommand::run` (lines 85-150)
     duckscript_sdk/src/types/scope.rs     `clear`, `set_line_context_name`
-    duckscript_sdk/src/utils/eval.rs      `eval_instructions` (lines 128-207)
+    duckscript_sdk/src/utils/eval.rs      `eval_instructions` (lines 128-211, incl. the halt poll of fix 9977171)
 
   The BODY (what `eval_instructions` does with the parsed `script.ds`) is a parameter of
   `aliasRun`; `scriptBody` instantiates it with the model of `eval_instructions` over the shared
@@ -138,12 +138,16 @@ def aliasRun {σ : Type} (H : HandleOps σ) (amount : Nat)
 
 /-! ### `eval_instructions` over the runner model -/
 
-/-- `eval_instructions(instructions, …, start_line)`; `none` = out of fuel (the real loop has no
-    bound: a body that jumps back forever does not return). -/
-def evalInstructions {σ : Type} (sem : CmdSem σ) (is : List Instruction) :
-    Nat → Nat → Option Str → Vars → σ → Option (BodyResult × Vars × σ)
-  | 0, _, _, _, _ => none
-  | fuel + 1, line, flowOut, vars, s =>
+/-- `eval_instructions(instructions, …, start_line)`.  `halt k` is the embedder's flag as seen by
+    the k-th poll at the top of the loop (a halted evaluation ends like one that ran past the last
+    line).  `none` = out of fuel (the real loop has no bound of its own: a body that jumps back
+    forever returns only when halted). -/
+def evalInstructions {σ : Type} (sem : CmdSem σ) (halt : Nat → Bool) (is : List Instruction) :
+    Nat → Nat → Nat → Option Str → Vars → σ → Option (BodyResult × Vars × σ)
+  | 0, _, _, _, _, _ => none
+  | fuel + 1, line, poll, flowOut, vars, s =>
+    if halt poll then some (.finished flowOut, vars, s)
+    else
     match is[line]? with
     | none => some (.finished flowOut, vars, s)
     | some instr =>
@@ -155,17 +159,17 @@ def evalInstructions {σ : Type} (sem : CmdSem σ) (is : List Instruction) :
         | .error m => some (.error m, r.2.2.1, r.2.2.2)
         | .crash m => some (.crash m, r.2.2.1, r.2.2.2)
         | .goTo v (.label l) => some (.gotoLabel v l, r.2.2.1, r.2.2.2)
-        | .goTo v (.line n) => evalInstructions sem is fuel n v r.2.2.1 r.2.2.2
+        | .goTo v (.line n) => evalInstructions sem halt is fuel n (poll + 1) v r.2.2.1 r.2.2.2
         | .continue v =>
-          evalInstructions sem is fuel (line + 1) v (r.2.2.1.updateOutput si.output v) r.2.2.2
-      | _ => evalInstructions sem is fuel (line + 1) flowOut vars s
+          evalInstructions sem halt is fuel (line + 1) (poll + 1) v (r.2.2.1.updateOutput si.output v) r.2.2.2
+      | _ => evalInstructions sem halt is fuel (line + 1) (poll + 1) flowOut vars s
 
 def outOfFuelMsg : Str := "<model: out of fuel>".toList
 
 /-- a body given by parsed instructions and a command semantics -/
-def scriptBody {σ : Type} (sem : CmdSem σ) (fuel : Nat) (is : List Instruction)
+def scriptBody {σ : Type} (sem : CmdSem σ) (halt : Nat → Bool) (fuel : Nat) (is : List Instruction)
     (vars : Vars) (st : σ) : BodyResult × Vars × σ :=
-  (evalInstructions sem is fuel 0 none vars st).getD (.crash outOfFuelMsg, vars, st)
+  (evalInstructions sem halt is fuel 0 0 none vars st).getD (.crash outOfFuelMsg, vars, st)
 
 
 /-! ### a concrete handle table (driver, non-vacuity of `HandleOps.Lawful`) -/
